@@ -116,7 +116,8 @@ def st_sensitivity(args):
         name = os.path.basename(p)[:-6]
         prop = name.split("_")[0].upper()
         items.append((name, prop, p))
-    for d in sorted(glob.glob(os.path.join(VERIF, "seeded", "*"))):
+    # (the seeded changes have their own, more complete re-check: seeded/recheck_all.py)
+    for d in (sorted(glob.glob(os.path.join(VERIF, "seeded", "*"))) if os.environ.get("VERIF_SENS_SEEDED") else []):
         meta = os.path.join(d, "meta.json")
         if os.path.exists(meta):
             m = json.load(open(meta))
